@@ -331,6 +331,10 @@ func (v *VLA) Unmarshal(payload []byte) (int, error) {
 		payload: payload,
 	}
 
+	// the receiver may have been used before
+	v.ActiveSpatialLayer = nil
+	v.HasResolutionAndFramerate = false
+
 	err := v.unmarshalSpatialLayers(ctx)
 	if err != nil {
 		return ctx.offset, err
